@@ -227,7 +227,10 @@ def main():
                 continue
             xv, _, _ = models.int_of_cells(e, cells[1:33])
             yv, _, _ = models.int_of_cells(e, cells[33:65])
-            v = e.prove_i(z3.And(c[2] % P != 0, xv >= 0, xv < P, yv >= 0, yv < P, (xv * c[2] - c[0]) % P == 0, (yv * c[2] - c[1]) % P == 0))
+            enc_claim = z3.And(c[2] % P != 0, xv >= 0, xv < P, yv >= 0, yv < P, (xv * c[2] - c[0]) % P == 0, (yv * c[2] - c[1]) % P == 0)
+            v = e.prove_i(enc_claim)
+            if v[0] == 'unknown' or (v[0] == 'cex' and getattr(v[1], 'approx', False)):
+                v = e.prove_i(enc_claim, scale=4)      # no verdict within the budget (machine under load?): once more with four times the budget
             if v[0] == 'cex' and getattr(v[1], 'approx', False):
                 unknown.append(fn)
             elif v[0] == 'cex':
